@@ -53,6 +53,10 @@ def check(repo: Repo) -> Result:
 
     r6 = res.rule("C20-R6", "the printed expression of a power denotes the unit that carries it: expression, scale and dimension of u**p are built from the same exponent (shared with C02-R3)", floor=3)
     share(res, r6, "C02", lambda t: c02.homomorphism(repo, t), ["C02-R3"], want=lambda k: k.startswith("__pow__:") or k.startswith("walk:"), min_keys=3)
+    from rules import c05
+
+    r7 = res.rule("C20-R7", "a unit read back from its text has the identical hash: Unit.__hash__ is a function of the registry's current contents id and the expression only - never a value remembered from an earlier registry state (shared with C05-R2)", floor=1)
+    share(res, r7, "C05", lambda t: t.__dict__.update(c05.check(repo).__dict__), ["C05-R2"], want=lambda k: k == "hash-footprint")
     return res
 
 
